@@ -458,6 +458,78 @@ def rule_sorted(F, R):
             "m_thresholds is modified outside the constructors: %s" % sorted(writers)[:3])
 
 
+def rule_bin_statistics(F, R):
+    """R-C20-6: the three per-bin statistics keep their identity from the place they are computed to the place they are read: update_bin
+    stores the element count in one member, the mean (the helper that accumulates and divides by the count) in a second and the median
+    (median_sorted over the bin's range) in a third, over the same [begin, end) it was given; the vector accessor and the per-bin accessor
+    of each statistic return that very member."""
+    hs = [f for f in F.functions.values() if f.cls == "nano::histogram_t" and f.relfile == FILES[1] and f.body is not None]
+    ubs = [f for f in hs if f.name == "update_bin"]
+    if not ubs:
+        raise AnalysisBroken("histogram_t::update_bin not found")
+    f = ubs[0]
+    role = {}
+    for x in f.nodes():
+        a_ = assignment(x)
+        if not a_ or a_[2] != "=":
+            continue
+        l = skip(a_[0])
+        if not (l["k"] == "call" and l.get("op") == "()" and skip(l["c"][0])["k"] == "mem" and pp(l["c"][1]) == f.params[2]["n"]):
+            continue
+        mem = skip(l["c"][0])["n"]
+        r = skip(a_[1])
+        while r["k"] == "cast" and r.get("c"):
+            r = skip(r["c"][0])
+        if r["k"] == "ref":
+            v, _ = find_var(f, r.get("d"))
+            r2 = skip(v["c"][0]) if v is not None and v.get("c") else r
+            while r2["k"] == "cast" and r2.get("c"):
+                r2 = skip(r2["c"][0])
+            if r2["k"] == "call" and callee(r2) == "std::distance":
+                role.setdefault(mem, set()).add("count")
+        elif r["k"] == "call":
+            cq = callee(r).split("::")[-1].split("<")[0]
+            rng = [pp(x_) for x_ in args(r)[:2]] == [f.params[0]["n"], f.params[1]["n"]]
+            if cq == "mean" and rng:
+                role.setdefault(mem, set()).add("mean")
+            elif cq in ("median_sorted", "median") and rng:
+                role.setdefault(mem, set()).add("median")
+            elif cq == "quiet_NaN":
+                role.setdefault(mem, set()).add("nan")
+            else:
+                role.setdefault(mem, set()).add("other:" + pp(r)[:30])
+    by_role = {}
+    for mem, rs in role.items():
+        for r_ in rs - {"nan"}:
+            by_role.setdefault(r_, set()).add(mem)
+    ok = all(len(by_role.get(k, ())) == 1 for k in ("count", "mean", "median")) and len({next(iter(by_role[k])) for k in ("count", "mean", "median") if by_role.get(k)}) == 3 and \
+        not any(k.startswith("other") for k in by_role)
+    R.check(ok, "R-C20-6", "update_bin", f.loc(), "count, mean and median of the bin's own range are stored in three distinct members",
+            "update_bin stores %s" % {k: sorted(v) for k, v in sorted(by_role.items())})
+    if not ok:
+        return
+    member = {k: next(iter(v)) for k, v in by_role.items()}
+    n = 0
+    for stat, (vec, one) in {"count": ("counts", "count"), "mean": ("means", "mean"), "median": ("medians", "median")}.items():
+        for name, indexed in ((vec, False), (one, True)):
+            gs = [g for g in hs if g.name == name and g.is_const and len(g.params) == (1 if indexed else 0)]
+            for g in gs[:1]:
+                rets = [x for x in g.nodes() if x["k"] == "return" and x.get("c")]
+                got = None
+                if len(rets) == 1:
+                    e = skip(rets[0]["c"][0])
+                    while e["k"] == "cast" and e.get("c"):
+                        e = skip(e["c"][0])
+                    if indexed and e["k"] == "call" and e.get("op") == "()" and skip(e["c"][0])["k"] == "mem" and ref_decl(e["c"][1]) == g.params[0]["d"]:
+                        got = skip(e["c"][0])["n"]
+                    elif not indexed and e["k"] == "mem":
+                        got = e["n"]
+                n += 1
+                R.check(got == member[stat], "R-C20-6", "%s(%s)" % (name, "bin" if indexed else ""), g.loc(), "returns the member update_bin fills with the bin's %s" % stat,
+                        "%s(%s) returns `%s`, but the bin's %s is stored in `%s`" % (name, "bin" if indexed else "", pp(rets[0]["c"][0])[:40] if rets else "?", stat, member[stat]))
+    R.floor("R-C20-6", n, 6, "accessors of the per-bin statistics")
+
+
 def run(ctx):
     R = ctx.report
     F = ctx.facts(TUS)
@@ -465,5 +537,6 @@ def run(ctx):
     rule_counting(F, R)
     rule_percentile(F, R)
     rule_sorted(F, R)
+    rule_bin_statistics(F, R)
     from . import c11_stats
     c11_stats.rule_stats_table(F, R, "R-C20-4")
